@@ -1009,3 +1009,14 @@ T('f_c13_stamp_in_mixin', ['C13'],
   (A, _APPCLS, _MIXIN % 'Exception' + 'class Application(_Stamping):\n'), (A, _TAG, '        self.stamp(request)\n'))
 B('f_c13_stamp_in_mixin_guard_narrowed', ['C13'], 'R13.f',
   (A, _APPCLS, _MIXIN % 'AttributeError' + 'class Application(_Stamping):\n'), (A, _TAG, '        self.stamp(request)\n'))
+# ... the headers travelling inside a mapping the constructor builds and passes as **
+_HE_KW = "                                            headers=headers,\n"
+_HE_CT = "                                            content_type=content_type)\n"
+_HE_CT_STAR = "                                            content_type=content_type,\n                                            **response_kwargs)\n"
+T('f_c13_headers_through_star_mapping', ['C13', 'C12'],
+  (E, _HE_POP, "        response_kwargs = {'headers': kwargs.pop('headers', None)}\n"), (E, _HE_KW, ''), (E, _HE_CT, _HE_CT_STAR))
+B('f_c13_headers_through_star_mapping_as_list', ['C13'], 'R13.g',
+  (E, _HE_POP, "        response_kwargs = {'headers': list((kwargs.pop('headers', None) or {}).items())}\n"), (E, _HE_KW, ''), (E, _HE_CT, _HE_CT_STAR))
+B('f_c13_headers_stored_into_star_mapping_as_list', ['C13'], 'R13.g',
+  (E, _HE_POP, _HE_POP + "        response_kwargs = {}\n        response_kwargs['headers'] = [(k, v) for k, v in (headers or {}).items()]\n"),
+  (E, _HE_KW, ''), (E, _HE_CT, _HE_CT_STAR))
